@@ -254,6 +254,31 @@ def specCast (t : List String) : String :=
   | [_, _, sz] => let size := sz.toNat!; if size < 8 then "panic" else s!"panic||ok off=0 sov={roundUp8 size} *"
   | _ => "*"
 
+
+def hexOf (b : Bytes) : String :=
+  if b.isEmpty then "-" else String.ofList (b.flatMap fun x => [hexDigit (x.toNat / 16), hexDigit (x.toNat % 16)])
+
+/-- ELFNAME <es> <n> <shndx> <entries> <strtab> -/
+def elfnameCase (t : List String) : String :=
+  match t with
+  | [_, es, n, sh, ents, st] =>
+    let entries := unhex ents
+    let size := 20 + entries.length
+    let T := enc32 9 ++ enc32 size ++ enc32 n.toNat! ++ enc32 es.toNat! ++ enc32 sh.toNat! ++ entries ++
+             List.replicate (roundUp8 size - size) 0
+    let v : View := ⟨0, size, roundUp8 size, entries.length⟩
+    match elfOpen T v with
+    | .ok (num, esz) =>
+      let r := elfIter T esz num 20
+      "[" ++ String.join (r.1.map fun s =>
+        match elfName T esz sh.toNat! s.off (unhex st) with
+        | .ok (.ok b) => s!"s:{hexOf b}|"
+        | .ok (.error _) => "e:Utf8|"
+        | .panic => "P|" | .oob => "OOB|" | .ub => "UB|") ++
+      (match r.2 with | .done => "]." | .bad => "]!" | .oob => "]OOB" | .ub => "]UB")
+    | .panic => "P" | .oob => "OOB" | .ub => "UB"
+  | _ => "bad-case"
+
 def specRnd (t : List String) : String :=
   match t with
   | [_, n] => let v := n.toNat!; if v + 7 < 18446744073709551616 then toString (roundUp8 v) else "*"
@@ -316,6 +341,7 @@ def handle (p : Profile) (line : String) : String :=
     | "CKS" => cksCase t
     | "FIND" => findCase t
     | "CAST" => castCase p t
+    | "ELFNAME" => elfnameCase t
     | "SWEEP" => (match t with | _ :: hx :: _ => Sweep.sweep p (unhex hx) | _ => "bad-case")
     | _ => s!"unknown-family:{f}"
 
